@@ -276,6 +276,17 @@ def _ext_call(ev, dotted, args, kwargs, fr, node):
         return T.int_(a['bytes'], a['byteorder'])
     # ---------------------------------------------------------------- builtins
     if dotted.startswith('builtins.'):
+        # a keyword (or extra positional) argument that a summary does not model is never silently dropped
+        kw_ok = {'int': {'base'}, 'bytes': {'encoding', 'errors', 'source'}, 'enumerate': {'start', 'iterable'}, 'sorted': {'reverse'},
+                 'open': None, 'print': {'file', 'end', 'sep', 'flush'}, 'dict': None, 'getattr': set(), 'slice': set()}
+        if kwargs and short not in kw_ok:
+            return T.opaque('keyword argument(s) %s of builtin %s are not modelled' % (sorted(kwargs), short))
+        if kwargs and kw_ok.get(short) is not None and not set(kwargs) <= kw_ok[short]:
+            return T.opaque('keyword argument(s) %s of builtin %s are not modelled' % (sorted(set(kwargs) - kw_ok[short]), short))
+        arity = {'len': 1, 'repr': 1, 'bool': 1, 'bin': 1, 'hex': 1, 'ord': 1, 'chr': 1, 'str': 1, 'list': 1, 'tuple': 1, 'set': 1,
+                 'frozenset': 1, 'sorted': 1, 'isinstance': 2, 'enumerate': 2}
+        if short in arity and len(args) > arity[short]:
+            return T.opaque('extra argument(s) of builtin %s are not modelled' % short)
         if short == 'len':
             return T.len_(args[0])
         if short == 'slice' and 1 <= len(args) <= 3 and not kwargs:
@@ -312,7 +323,10 @@ def _ext_call(ev, dotted, args, kwargs, fr, node):
         if short == 'zip':
             return T.raw_op('ZIP', *args)
         if short == 'enumerate':
-            return T.raw_op('ENUMERATE', *args)
+            a = _kw(args, kwargs, ['iterable', 'start'], {'start': T.const(0)})
+            if a['start'] == T.const(0):
+                return T.raw_op('ENUMERATE', a['iterable'])
+            return T.raw_op('ENUMERATE', a['iterable'], a['start'])
         if short in ('list', 'tuple', 'set', 'sorted', 'frozenset'):
             if not args:
                 return T.lst([]) if short != 'tuple' else T.tup([])
@@ -320,13 +334,14 @@ def _ext_call(ev, dotted, args, kwargs, fr, node):
             items = _fixed_items(args[0])
             if items is not None:
                 if short == 'sorted':
-                    if all(T.is_const(i) for i in items):
+                    rev = kwargs.get('reverse', T.FALSE)
+                    if all(T.is_const(i) for i in items) and T.is_const(rev):
                         try:
-                            items = sorted(items, key=lambda c: c[1])
+                            items = sorted(items, key=lambda c: c[1], reverse=bool(rev[1]))
                         except TypeError:
-                            return T.raw_op('SORTED', args[0])
+                            return T.raw_op('SORTED', args[0], rev)
                     else:
-                        return T.raw_op('SORTED', args[0])
+                        return T.raw_op('SORTED', args[0], rev)
                 return T.tup(items) if short == 'tuple' else T.lst(items)
             if T.is_op(args[0], 'MAP'):
                 return args[0]
@@ -380,7 +395,8 @@ def _ext_call(ev, dotted, args, kwargs, fr, node):
                                tuple(T.show(a) for a in args)))
             return T.raw_op('FILE', *args)
         if short == 'print':
-            ev.effects.append(('print', fr.fn.qual if fr.fn else None, node.lineno if node else 0, ''))
+            ev.effects.append(('print', fr.fn.qual if fr.fn else None, node.lineno if node else 0,
+                               T.show(kwargs['file'], maxdepth=2) if 'file' in kwargs else ''))
             return T.NONE
         if short.endswith('Error') or short in ('Exception', 'StopIteration'):
             return T.raw_op('EXC', T.const(short))
@@ -393,7 +409,14 @@ def _ext_call(ev, dotted, args, kwargs, fr, node):
         data = args[0] if args else kwargs.get('string', T.const(b''))
         return T.raw_op('HASHOBJ', T.const(short), data)
     if dotted == 'hashlib.new':
-        return T.raw_op('HASHOBJ', args[0], args[1] if len(args) > 1 else kwargs.get('data', T.const(b'')))
+        obj = T.raw_op('HASHOBJ', args[0], args[1] if len(args) > 1 else kwargs.get('data', T.const(b'')))
+        guaranteed = ('md5', 'sha1', 'sha224', 'sha256', 'sha384', 'sha512', 'sha3_224', 'sha3_256', 'sha3_384', 'sha3_512',
+                      'blake2b', 'blake2s', 'shake_128', 'shake_256')
+        if T.is_const(args[0]) and args[0][1] in guaranteed:
+            return obj
+        # any other algorithm (ripemd160, md4, ...) comes from the OpenSSL build and may be missing: ValueError
+        return T.phi(T.raw_op('BOOL', T.sym('ENV:hashlib provides %s' % (args[0][1] if T.is_const(args[0]) else '?'), type='bool')),
+                     obj, T.raise_('ValueError'))
     if dotted == 'hmac.new':
         a = _kw(args, kwargs, ['key', 'msg', 'digestmod'])
         return T.raw_op('HMACOBJ', a['key'], a['msg'] if a['msg'] is not None else T.const(b''),
@@ -575,6 +598,8 @@ def method_call(ev, recv, name, args, kwargs, fr, node):
                 return T.raw_op('SHA256', recv[3])
             if algo == T.const('sha512'):
                 return T.raw_op('SHA512', recv[3])
+            if algo in (T.const('ripemd160'), T.const('rmd160'), T.const('RIPEMD160')):
+                return T.raw_op('RIPEMD160', recv[3])       # OpenSSL's RIPEMD-160 is the same function as the bundled one
             return T.raw_op('HASH', algo, recv[3])
         if name == 'hexdigest':
             return T.raw_op('HEX', method_call(ev, recv, 'digest', [], {}, fr, node))
@@ -623,6 +648,8 @@ def method_call(ev, recv, name, args, kwargs, fr, node):
     if T.tag(recv) == 'phi':
         return T.phi(recv[1], method_call(ev, recv[2], name, args, kwargs, fr, node),
                      method_call(ev, recv[3], name, args, kwargs, fr, node))
+    if kwargs and name not in ('to_bytes', 'encode', 'format'):
+        return T.opaque('keyword argument(s) %s of method .%s are not modelled' % (sorted(kwargs), name))
     # int
     if name == 'to_bytes':
         a = _kw(args, kwargs, ['length', 'byteorder'], {'length': T.const(1), 'byteorder': T.const('big')})
@@ -630,6 +657,8 @@ def method_call(ev, recv, name, args, kwargs, fr, node):
     if name == 'bit_length' and T.is_const(recv):
         return T.const(recv[1].bit_length())
     # bytes
+    if name == 'hex' and args:
+        return T.opaque('bytes.hex(sep) is not modelled')
     if name == 'hex' and (tb == 'bytes' or tb is None):
         if T.is_const(recv) and isinstance(recv[1], bytes):
             return T.const(recv[1].hex())
@@ -704,7 +733,7 @@ def method_call(ev, recv, name, args, kwargs, fr, node):
     if name in ('items', 'values', 'keys') and not args:
         return T.raw_op(name.upper(), recv)
     if name == 'get' and T.tag(recv) == 'dict' and args and not T.is_const(args[0]) and T.tag(args[0]) != 'enum' \
-            and 0 < len(recv[1]) <= 16 and all(T.is_const(k_) for k_, _ in recv[1]):
+            and 0 < len(recv[1]) <= 64 and all(T.is_const(k_) for k_, _ in recv[1]):
         out = args[1] if len(args) > 1 else T.NONE
         for k_, v_ in reversed(recv[1]):
             out = T.phi(T.eq(args[0], k_), v_, out)
